@@ -1,6 +1,7 @@
 package main
 
 import (
+	"go/parser"
 	"fmt"
 	"go/ast"
 	"go/token"
@@ -33,6 +34,7 @@ type Engine struct {
 	assumed   map[string]bool
 	loadErrs  []string
 	loadErrInfo []loadErr
+	headerKeys  map[string]bool // keys named by contract headers (before renamed-function recovery)
 	renameNotes []string
 	ginit     *globalInit
 	ginitOnce sync.Once
@@ -247,6 +249,14 @@ func LoadEngine(repo string) (*Engine, error) {
 		if err != nil {
 			return nil, fmt.Errorf("%s: %v", name, err)
 		}
+		if e.headerKeys == nil {
+			e.headerKeys = map[string]bool{}
+		}
+		for _, ct := range cts {
+			if k := headerKey(ct.Header); k != "" {
+				e.headerKeys[k] = true
+			}
+		}
 		for _, ct := range cts {
 			if err := e.resolveHeader(ct); err != nil {
 				e.addLoadErr(ct, err.Error())
@@ -453,4 +463,33 @@ func (e *Engine) writeSummary(fn *ssa.Function) []bool {
 func funcDeclOf(fn *ssa.Function) *ast.FuncDecl {
 	fd, _ := fn.Syntax().(*ast.FuncDecl)
 	return fd
+}
+
+// headerKey: the function key a contract header names ("(*T).M", "(T).M" or "f"), without resolving it.
+func headerKey(header string) string {
+	f, err := parser.ParseFile(token.NewFileSet(), "", "package p\n"+header+" {}", 0)
+	if err != nil || len(f.Decls) == 0 {
+		return ""
+	}
+	fd, ok := f.Decls[0].(*ast.FuncDecl)
+	if !ok {
+		return ""
+	}
+	key := fd.Name.Name
+	if fd.Recv != nil && len(fd.Recv.List) == 1 {
+		rt := fd.Recv.List[0].Type
+		ptr := false
+		if se, ok := rt.(*ast.StarExpr); ok {
+			ptr = true
+			rt = se.X
+		}
+		if id, ok := rt.(*ast.Ident); ok {
+			if ptr {
+				key = "(*" + id.Name + ")." + fd.Name.Name
+			} else {
+				key = "(" + id.Name + ")." + fd.Name.Name
+			}
+		}
+	}
+	return key
 }
